@@ -319,6 +319,8 @@ impl Config {
 
     /// Sets the mode for (de)serialization. This is a low-level method that you won't need directly.
     pub(crate) fn set_serialize_mode(&self, mode: SerializeMode) {
+        #[cfg(stam_verif)]
+        verif_sched::verif_yield("mode:write");
         if let Ok(mut serialize_mode) = self.serialize_mode.write() {
             *serialize_mode = mode;
         }
@@ -326,6 +328,8 @@ impl Config {
 
     /// Gets the mode for (de)serialization. This is a low-level method that you won't need directly.
     pub(crate) fn serialize_mode(&self) -> SerializeMode {
+        #[cfg(stam_verif)]
+        verif_sched::verif_yield("mode:read");
         if let Ok(serialize_mode) = self.serialize_mode.read() {
             *serialize_mode
         } else {
@@ -356,3 +360,22 @@ impl TypeInfo for Config {
 }
 
 impl ToJson for Config {}
+
+/// Verification hooks (compiled only with `--cfg stam_verif`): yield points at the places where shared
+/// interior-mutable state (serialisation mode, changed flags) is read or written, so that a test scheduler
+/// can enumerate the interleavings of reader threads deterministically.
+#[cfg(stam_verif)]
+pub mod verif_sched {
+    use std::sync::RwLock;
+    static YIELD_HOOK: RwLock<Option<fn(&'static str)>> = RwLock::new(None);
+    /// Install (or remove) the function called at every yield point
+    pub fn verif_set_yield_hook(f: Option<fn(&'static str)>) {
+        *YIELD_HOOK.write().unwrap() = f;
+    }
+    pub(crate) fn verif_yield(point: &'static str) {
+        let hook = *YIELD_HOOK.read().unwrap();
+        if let Some(f) = hook {
+            f(point)
+        }
+    }
+}
